@@ -19,13 +19,13 @@ cmake -G Ninja -S $B/with -B $B/bwith -DCMAKE_BUILD_TYPE=Debug >/dev/null 2>&1 &
 ctest --test-dir $B/bwith -j8 2>&1 | tail -3 >> $log
 TESTS_WITH=$(ctest --test-dir $B/bwith -j8 2>&1 | grep -c "100% tests passed")
 LIB=$(find $B/bwith -name "libUTAP.*" | head -1)
-g++ -std=c++17 -I$B/with/include -I$B/with/src $OUT/demo.cpp $LIB -lxml2 -ldl -Wl,-rpath,$(dirname $LIB) -o $B/demo_with >> $log 2>&1
+g++ -std=c++17 -I/usr/include/libxml2 -I$B/with/include -I$B/with/src $OUT/demo.cpp $LIB -lxml2 -ldl -Wl,-rpath,$(dirname $LIB) -o $B/demo_with >> $log 2>&1
 ( cd $B && timeout 300 ./demo_with >> $log 2>&1 ); DEMO_WITH=$?
 echo "demo WITH change exit=$DEMO_WITH" >> $log
 git -C /repo worktree add -q --detach $B/orig HEAD
 cmake -G Ninja -S $B/orig -B $B/without -DCMAKE_BUILD_TYPE=Debug -DUTAP_WITH_TESTS=OFF >/dev/null 2>&1 && cmake --build $B/without --target UTAP -j8 >/dev/null 2>&1
 LIB2=$(find $B/without -name "libUTAP.*" | head -1)
-g++ -std=c++17 -I$B/orig/include -I$B/orig/src $OUT/demo.cpp $LIB2 -lxml2 -ldl -Wl,-rpath,$(dirname $LIB2) -o $B/demo_without >> $log 2>&1
+g++ -std=c++17 -I/usr/include/libxml2 -I$B/orig/include -I$B/orig/src $OUT/demo.cpp $LIB2 -lxml2 -ldl -Wl,-rpath,$(dirname $LIB2) -o $B/demo_without >> $log 2>&1
 ( cd $B && timeout 300 ./demo_without >> $log 2>&1 ); DEMO_WITHOUT=$?
 echo "demo WITHOUT change exit=$DEMO_WITHOUT" >> $log
 git -C /repo worktree remove --force $B/orig
